@@ -314,7 +314,7 @@ func init() {
 		},
 		Floors: []Floor{
 			floorKey("LinearAttempt", 8, "/LinearAttempt/"),
-			floorKey("goroutine", 8, "/LinearAttempt$1/"),
+			floorKey("goroutine", 8, "/LinearAttempt$go1/"),
 			floorRule("ATOM", "ATOM", 3),
 		},
 	})
